@@ -5,7 +5,7 @@ alone): stochastic model programs with pub/sub fan-out -- at least three
 listeners on one event type, listeners that unsubscribe / subscribe mid-run,
 schedule events and draw from streams shared with the handlers; SimTally /
 SimPersistent / SimCounter statistics -- are executed in SEPARATE interpreter
-processes (harness/c07_child.py) with PYTHONHASHSEED in {0, 1, 2, random},
+processes (harness/c07_child.py) with PYTHONHASHSEED in {0, 1, 2, a drawn value, random},
 after different amounts of unrelated prior activity in the process (event ids
 consumed, event types, listeners and objects created and dropped, another
 simulation run), and with pauses at different points (run_up_to /
@@ -193,7 +193,7 @@ def variants(rng, model, clock, with_stop):
         (0, PRIORS[0], dict(base, cmds=[init, ["start"]])),
         (1, PRIORS[1], dict(base, cmds=[init, ["runupto", t2], ["start"]])),
         (2, PRIORS[2], dict(base, cmds=[init, ["runuptoincl", t1], ["runupto", t2], ["runuptoincl", t3], ["start"]])),
-        ("random", PRIORS[3], dict(base, cmds=[init, ["start"]])),
+        (rng.randint(3, 2 ** 32 - 1), PRIORS[3], dict(base, cmds=[init, ["start"]])),
         # steps anywhere, also onto an event exactly at the replication end (a legal pause point since /repo 06e1929)
         ("random", PRIORS[4], dict(base, cmds=[init, ["step"], ["step"], ["runupto", t2], ["step"], ["runuptoincl", t3], ["step"], ["start"]])),
     ]
@@ -264,7 +264,7 @@ RULE = ("stochastic model programs with pub/sub fan-out: 2-3 self-rescheduling h
         "schedule events (drawn and zero delays), draw observed values (next_int, next_float) from the shared streams, "
         "unsubscribe themselves or others, subscribe others, fire further types, cancel events; SimTally, SimPersistent, SimCounter "
         "(also two statistics on one data stream) built in construct_model; each program is executed by 5-6 child interpreters: "
-        "PYTHONHASHSEED 0 / 1 / 2 / random / random; prior activity none / small / large / medium / very large (17 to 5000 event ids "
+        "PYTHONHASHSEED 0 / 1 / 2 / a drawn 32-bit value / random; prior activity none / small / large / medium / very large (17 to 5000 event ids "
         "consumed, 0-40 event types, 0-25 listeners, 50-12345 objects allocated and half dropped, 0-3 other simulations run); "
         "uninterrupted, one cut, three cuts, steps and cuts mixed, and (every 6th program) stop() from a handler followed by start. "
         "non-trivial = program executing >= 10 events with >= 1 firing that notified >= 3 listeners and >= 1 mid-run "
@@ -315,6 +315,13 @@ def main(tier: str) -> int:
         clock, model, vseed = programs[pi]
         errs = [(vi, o) for vi, job, o in lst if "error" in o or o.get("notes")]
         if errs:
+            # a child that failed or timed out (machine load) is given a second chance before anything is reported
+            redo = run_children([job for vi, job, o in lst if "error" in o or o.get("notes")])
+            it = iter(redo)
+            lst = [(vi, job, (next(it) if ("error" in o or o.get("notes")) else o)) for vi, job, o in lst]
+            errs = [(vi, o) for vi, job, o in lst if "error" in o or o.get("notes")]
+            by_prog[pi] = lst
+        if errs:
             vi, o = errs[0]
             sig = "implementation-does-not-return" if o.get("error") == "timeout" else "child-error"
             bads.setdefault(sig, (pi, f"child {vi}: {o.get('error') or o.get('notes')} {o.get('tb', '')[-300:]}", lst[vi][1]))
@@ -324,7 +331,7 @@ def main(tier: str) -> int:
         lst_all = lst
         for vi, job, o in lst:
             hist["distinct_hash_probes"].add(o.get("probe"))
-            if job["hashseed"] == "random":
+            if job["hashseed"] not in (0, 1, 2):
                 hist["hashseed_random_children"] += 1
             if job["job"]["case"].get("stop_at"):
                 hist["with_stop_from_handler"] += 1
